@@ -378,8 +378,8 @@ func (ex *Exec) eval(e ast.Expr) Value {
 			if o.Pkg().Path() == "crypto/rand" && o.Name() == "Reader" {
 				return OpaqueV{Kind: "rand.Reader"}
 			}
-			if o.Pkg().Path() == "encoding/binary" && o.Name() == "BigEndian" {
-				return OpaqueV{Kind: "binary.BigEndian"}
+			if o.Pkg().Path() == "encoding/binary" && (o.Name() == "BigEndian" || o.Name() == "LittleEndian") {
+				return OpaqueV{Kind: "binary." + o.Name()}
 			}
 			return ex.loadLoc(ex.lvalue(e))
 		}
